@@ -111,13 +111,19 @@ def ltOpt (env : Env V) (a b : Option V) : Bool :=
   | some x, some y => env.lt x y
   | _, _ => false          -- a missing bound is ∓infinity
 
-/-- `Module.checkLimits(value, pname)` -/
+/-- `not lo <= value <= hi` for the pair stored in `<p>_limits` (no such parameter: never outside) -/
+def outsidePair (env : Env V) (lim : Option V) (v : V) : Bool :=
+  match lim with
+  | some l => !(env.le (env.split l).1 v && env.le v (env.split l).2)
+  | none => false
+
+/-- `LimitsType.validate`: `limits[1] < limits[0]` -/
+def pairInverted (env : Env V) (v : V) : Bool := env.lt (env.split v).2 (env.split v).1
+
+/-- `Module.checkLimits(value, pname)`: `<p>_limits` AND `<p>_min` AND `<p>_max` all apply -/
 def checkLimits (env : Env V) (mod : Module J V) (attr : String) (v : V) : CheckRes :=
-  match attrValue mod (attr ++ "_limits") with
-  | some lim =>
-    let lh := env.split lim
-    if env.le lh.1 v && env.le v lh.2 then .pass else .raise (mkErr .rangeError)
-  | none =>
+  if outsidePair env (attrValue mod (attr ++ "_limits")) v then .raise (mkErr .rangeError)
+  else
     let mn := attrValue mod (attr ++ "_min")
     let mx := attrValue mod (attr ++ "_max")
     if ltOpt env mx mn then .raise (mkErr .rangeError)          -- invalid limits: min > max
@@ -149,12 +155,14 @@ def admitChange (env : Env V) (mod : Module J V) (p : Param J V) (j : J) : Excep
     match p.dt.accept j (some p.entry.value) with
     | .error e => .error e
     | .ok v =>
-      match p.dt.revalidate v with
-      | .error e => .error e
-      | .ok w =>
-        match runChecks (checkOne env mod p.attr v) p.checks with
-        | some e => .error e
-        | none => .ok (v, w)
+      if p.isLimitsPair && pairInverted env v then .error (mkErr .rangeError)    -- LimitsType: inverted pair
+      else
+        match p.dt.revalidate v with
+        | .error e => .error e
+        | .ok w =>
+          match runChecks (checkOne env mod p.attr v) p.checks with
+          | some e => .error e
+          | none => .ok (v, w)
 
 /-- `announceUpdate(pname, value, validate=False)` + `make_update` -/
 def announce (pre : Predef) (mod : Module J V) (p : Param J V) (v : V) : List (Msg J) :=
